@@ -36,6 +36,8 @@ def sig_of(case, clause):
     elif name.startswith("credited_beyond_signing_record"):
         name = "credited_beyond_signing_record"      # the amount varies with the fees; the failing class is the vote of a non-signer
         feat = "nonsigner_vote_counted"
+    elif name in ("genesis_delegators", "genesis_compound"):
+        feat = "not_in_genesis_state"
     elif name == "delegator_dropped":
         feat = "still_holds_shares"
     elif name == "registry_supply":
